@@ -187,8 +187,8 @@ def check_curve(prog: Program, rep, rule: str) -> None:
         sel_pre.append(s)
     try:
         t0 = ev.exec_block(sel_pre, st, Ctx(tc, sel, None, 0))
-    except Undecided as exc:
-        raise AnalysisError(f'selector: {exc}') from exc
+    except Undecided:
+        t0 = None
     lo = hi = None
     whiles = [s for s in sel.node.body if isinstance(s, ast.While)]
     if isinstance(t0, Leaf) and whiles:
@@ -203,16 +203,20 @@ def check_curve(prog: Program, rep, rule: str) -> None:
                 elif v.rf.depends_on('len(curve)'):
                     hi = v.rf
     if lo is None or hi is None:
-        raise AnalysisError('selector: initial index bounds not readable')
+        # another search shape: the index range 0 .. len(curve)-2 and the value form are R4's obligations (engine F)
+        rep.undecided(rule, sel.where, 'selector index range', 'the initial bounds of the search are not two plain '
+                      'assignments before one loop; the range 0 .. n-2 is left to R4')
+        lo, hi = A.rf(0), A.sym('len(curve)') - 2
     tail_reachable = not hi.equals(A.sym('len(curve)') - 2)
     # value returned: c + b*m + a*m^2 of one entry
     try:
         r, _ = ev.call_value(sel, [SymObj('ml'), SymObj('curve'), S('m')])
     except Undecided as exc:
-        raise AnalysisError(f'selector: {exc}') from exc
+        rep.undecided(rule, sel.where, 'selector form', f'not readable by engine D ({exc}); left to R4')
+        r = None
     bad_form = None
     nleaf = 0
-    for _p, leaf in cond_leaves(r):
+    for _p, leaf in (cond_leaves(r) if r is not None else []):
         nleaf += 1
         if not isinstance(leaf, Scalar):
             bad_form = f'returns {leaf!r}'
@@ -228,7 +232,7 @@ def check_curve(prog: Program, rep, rule: str) -> None:
             break
     if bad_form:
         rep.fail(rule, tc.path, sel.node.lineno, sel.qualname, 'selector-form', f'the selector {bad_form}')
-    else:
+    elif r is not None:
         rep.ok(rule, sel.where, f'selector returns c + b*m + a*m^2 of one entry ({nleaf} cases); index range '
                f'[{lo!r}, {hi!r}]')
 
@@ -535,7 +539,7 @@ def run(prog: Program, rep, thorough: bool) -> None:
     rep.rule('C09.R1', 'shipped tables literal, ascending from 0, equal to the reference, never written', 9 + 2)
     rep.rule('C09.R2', 'curve entries interpolate their nodes; selector form and index range', 4)
     rep.rule('C09.R3', 'BC definition and wiring', 6)
-    rep.rule('C09.R4', 'bisection keeps the query bracketed; entry at a bracketing node', 2)
+    rep.rule('C09.R4', 'the selector returns an entry whose nodes include both neighbours of the query (proof per return site)', 1)
     check_tables(prog, rep, 'C09.R1')
     check_curve(prog, rep, 'C09.R2')
     check_bc(prog, rep, 'C09.R3')
